@@ -27,6 +27,7 @@ type bufPipe struct {
 	wake   chan struct{}
 	werr   error // set by CloseWrite: returned by Read once drained
 	rerr   error // set by CloseRead: returned by Write
+	derr   error // set by Discard: returned by Read, while Write still succeeds
 	closed chan struct{}
 }
 
@@ -36,6 +37,10 @@ func newBufPipe() *bufPipe {
 
 func (p *bufPipe) Write(b []byte) (int, error) {
 	p.mu.Lock()
+	if p.derr != nil && p.rerr == nil {
+		p.mu.Unlock()
+		return len(b), nil // half-open: the reader is gone, the writer has not noticed yet
+	}
 	if p.rerr != nil {
 		err := p.rerr
 		p.mu.Unlock()
@@ -57,6 +62,11 @@ func (p *bufPipe) Write(b []byte) (int, error) {
 func (p *bufPipe) Read(b []byte) (int, error) {
 	for {
 		p.mu.Lock()
+		if p.derr != nil {
+			err := p.derr
+			p.mu.Unlock()
+			return 0, err
+		}
 		if p.rerr != nil {
 			err := p.rerr
 			p.mu.Unlock()
@@ -92,6 +102,20 @@ func (p *bufPipe) CloseWrite(err error) {
 	p.mu.Lock()
 	if p.werr == nil {
 		p.werr = err
+	}
+	p.mu.Unlock()
+	select {
+	case p.wake <- struct{}{}:
+	default:
+	}
+}
+
+// Discard makes reads fail with err at once while writes keep succeeding (their data is dropped): the reading side
+// has gone away and the writing side has not noticed yet.
+func (p *bufPipe) Discard(err error) {
+	p.mu.Lock()
+	if p.derr == nil {
+		p.derr = err
 	}
 	p.mu.Unlock()
 	select {
@@ -147,6 +171,10 @@ type InProc struct {
 	// at once, the first body bytes only that much (virtual) time later — a slow network seen from the client.
 	// A request context that ends meanwhile aborts the read with that context's error, as net/http does.
 	BodyLatency func(req *http.Request, reqBody []byte) time.Duration
+	// Linger, if set, returns for how long the server keeps regarding this exchange as attached after the client
+	// has abandoned it (cancelled the request or closed the body): a half-open connection. Until then the
+	// handler's request context stays alive and its writes succeed, into the void.
+	Linger func(req *http.Request) time.Duration
 	// WrapBody, if set, wraps the response body handed to the client (cut injection).
 	WrapBody func(req *http.Request, n int64, resp *http.Response, body io.ReadCloser) io.ReadCloser
 
@@ -201,6 +229,7 @@ type respBody struct {
 	once    sync.Once
 	latency time.Duration
 	waited  atomic.Bool
+	linger  time.Duration
 }
 
 func (b *respBody) Read(p []byte) (int, error) {
@@ -217,6 +246,14 @@ func (b *respBody) Read(p []byte) (int, error) {
 func (b *respBody) Close() error { return b.abort(errors.New("inproc: client closed response body")) }
 func (b *respBody) abort(err error) error {
 	b.once.Do(func() {
+		if b.linger > 0 {
+			b.pipe.Discard(err)
+			time.AfterFunc(b.linger, func() {
+				b.pipe.CloseRead(err)
+				b.cancel()
+			})
+			return
+		}
 		b.pipe.CloseRead(err)
 		b.cancel() // the server sees the client going away
 	})
@@ -255,7 +292,15 @@ func (t *InProc) RoundTrip(req *http.Request) (*http.Response, error) {
 			return nil, err
 		}
 	}
-	ctx, cancel := context.WithCancel(req.Context())
+	var linger time.Duration
+	if t.Linger != nil {
+		linger = t.Linger(req)
+	}
+	base := req.Context()
+	if linger > 0 {
+		base = context.WithoutCancel(base) // the server learns of the client's departure only after the linger
+	}
+	ctx, cancel := context.WithCancel(base)
 	if t.LocalAddr != nil {
 		ctx = context.WithValue(ctx, http.LocalAddrContextKey, t.LocalAddr)
 	}
@@ -311,6 +356,7 @@ func (t *InProc) RoundTrip(req *http.Request) (*http.Response, error) {
 	if t.BodyLatency != nil {
 		rbody.latency = t.BodyLatency(req, body)
 	}
+	rbody.linger = linger
 	var rb io.ReadCloser = rbody
 	resp := &http.Response{
 		Status: fmt.Sprintf("%d %s", w.status, http.StatusText(w.status)), StatusCode: w.status,
